@@ -52,6 +52,43 @@ def subst(t, mapping, frozen=()):
     return t
 
 
+def _degree(t, atoms):
+    """price dimension of a term over the given price atoms: atoms 1, constants 0, * adds, / subtracts, +/- take the larger; None = unknown"""
+    if t in atoms:
+        return 1
+    if is_const(t):
+        return 0
+    if isinstance(t, tuple) and t and t[0] in ("+", "-") and len(t) == 3:
+        a, b = _degree(t[1], atoms), _degree(t[2], atoms)
+        return None if a is None or b is None else max(a, b)
+    if isinstance(t, tuple) and t and t[0] == "*" and len(t) == 3:
+        a, b = _degree(t[1], atoms), _degree(t[2], atoms)
+        return None if a is None or b is None else a + b
+    if isinstance(t, tuple) and t and t[0] == "/" and len(t) == 3:
+        a, b = _degree(t[1], atoms), _degree(t[2], atoms)
+        return None if a is None or b is None else a - b
+    if isinstance(t, tuple) and t and t[0] in ("neg", "abs") and len(t) == 2:
+        return _degree(t[1], atoms)
+    return None
+
+
+def rounded_difference(t, atoms):
+    """a +/- node whose operands carry price dimension but are not both exact values (one of `atoms`): the difference of rounded
+    price-sized intermediates has absolute error ulp(price), which a later division by the window range amplifies"""
+    for s_ in subterms(t):
+        if isinstance(s_, tuple) and s_ and s_[0] in ("+", "-") and len(s_) == 3:
+            da, db = _degree(s_[1], atoms), _degree(s_[2], atoms)
+            if da is None or db is None:
+                return "cannot bound the rounding of %s (unrecognised operand)" % show(s_)[:80]
+            if max(da, db) >= 1 and not (s_[1] in atoms and s_[2] in atoms):
+                # a sum/difference of differences of exact values is fine (each is exact to half an ulp of the *difference*)
+                if all(isinstance(o, tuple) and o and o[0] == "-" and len(o) == 3 and o[1] in atoms and o[2] in atoms for o in (s_[1], s_[2])):
+                    continue
+                return ("%s combines price-sized values after they were rounded (scaled or divided before the subtraction): the error is "
+                        "ulp(price), not ulp(difference), and the division by the window range amplifies it beyond the 1e-9 slack" % show(s_)[:90])
+    return None
+
+
 def fast_stochastic(F, S):
     ok_all = True
     for fn in F.fns_of("FastStochastic", "next", trait="Next"):
@@ -67,6 +104,7 @@ def fast_stochastic(F, S):
         a, b = mn[0][3][0], mx[0][3][0]
         g = lambda n: ("get", n, BAR)
         bad_leaf = None
+        slug_ = "affine-position"
         for conds, leaf in leaves(r["ret"]):
             if is_const(leaf):
                 if not (0.0 <= leaf[2] <= 100.0):
@@ -94,9 +132,19 @@ def fast_stochastic(F, S):
             if not ok:
                 bad_leaf = "%s is not of the form 100*(x - lo)/(hi - lo): %s" % (show(leaf)[:100], why)
                 break
+            # ratio_in is a statement about the real-valued rational function.  The property allows 1e-9 of rounding slack, which a handful of
+            # correctly rounded operations keeps (relative error ~1e-16 each) *unless* a difference of two price-sized values is taken after they
+            # were rounded: then the absolute error is ulp(price), and dividing by the (possibly tiny) range amplifies it without bound
+            # (red-team hole rt3-03: (x*100 - lo*100)/(hi - lo) reaches 105 at price level 1e6).  So every +/- between price-dimension
+            # operands must be between exact values: the positioned value and the two extremes themselves
+            hz = rounded_difference(leaf, (x, lo, hi))
+            if hz:
+                bad_leaf = "%s: %s" % (show(leaf)[:100], hz)
+                slug_ = "cancellation-after-rounding"
+                break
         if bad_leaf:
             ok_all = False
-            S.bad("AP", "affine-position", fn.label, "%s: %s" % (fn.label, bad_leaf), loc(fn.span))
+            S.bad("AP", slug_, fn.label, "%s: %s" % (fn.label, bad_leaf), loc(fn.span))
         else:
             S.ok("AP", "%s in [0,100]" % fn.label, contract="Minimum.step(v) <= v <= Maximum.step(v) (window extremes: re-established by the I6/I7 instances of this rule)", min_over=show(a), max_over=show(b))
     return ok_all
